@@ -33,6 +33,12 @@ type nameEntry struct {
 	// 1-based ordinal of the loop among the loops of that function, in source order
 	RangeIn   string `json:"rin,omitempty"`
 	RangeLoop int    `json:"rl,omitempty"`
+	// for a loop-carried variable (a phi at a loop header): closure path, loop ordinal and position among the
+	// header's phis of the same type
+	PhiIn   string `json:"pin,omitempty"`
+	PhiLoop int    `json:"pl,omitempty"`
+	PhiIdx  int    `json:"pi,omitempty"`
+	PhiOf   int    `json:"pn,omitempty"` // number of phis of that type at that header
 }
 
 const baselineNamesFile = "/verif/baseline_names.json"
@@ -142,7 +148,7 @@ func cmdNames() int {
 		}
 		k := outermost(c.Fn).String()
 		if _, ok := out[k]; !ok {
-			out[k] = w.declaredNames(c.Fn)
+			out[k] = append(w.declaredNames(c.Fn), loopPhis(outermost(c.Fn), "", func(p *types.Package) string { return p.Name() })...)
 		}
 	}
 	b, _ := json.MarshalIndent(out, "", " ")
@@ -197,7 +203,7 @@ func (w *World) applyRenames() {
 		k := outermost(c.Fn).String()
 		al, done := aliasOf[k]
 		if !done {
-			al = computeAlias(base[k], w.declaredNames(c.Fn))
+			al = computeAlias(base[k], append(w.declaredNames(c.Fn), loopPhis(outermost(c.Fn), "", func(p *types.Package) string { return p.Name() })...))
 			aliasOf[k] = al
 		}
 		if len(al) == 0 {
@@ -217,7 +223,22 @@ func (w *World) applyRenames() {
 	}
 }
 
-func computeAlias(base, cur []nameEntry) map[string]string {
+func computeAlias(baseAll, curAll []nameEntry) map[string]string {
+	var base, cur, bphi, cphi []nameEntry
+	for _, e := range baseAll {
+		if e.PhiLoop > 0 {
+			bphi = append(bphi, e)
+		} else {
+			base = append(base, e)
+		}
+	}
+	for _, e := range curAll {
+		if e.PhiLoop > 0 {
+			cphi = append(cphi, e)
+		} else {
+			cur = append(cur, e)
+		}
+	}
 	if len(base) == 0 || len(cur) == 0 {
 		return nil
 	}
@@ -230,6 +251,19 @@ func computeAlias(base, cur []nameEntry) map[string]string {
 	}
 	al := map[string]string{}
 	used := map[string]bool{}
+	// loop-carried variables first: same loop, same type, same position among the header's phis of that type
+	for _, e := range bphi {
+		if inCur[e.Name] || al[e.Name] != "" {
+			continue
+		}
+		for _, c := range cphi {
+			if c.PhiIn == e.PhiIn && c.PhiLoop == e.PhiLoop && c.Type == e.Type && c.PhiIdx == e.PhiIdx && c.PhiOf == e.PhiOf && !inBase[c.Name] && !used[c.Name] {
+				al[e.Name] = c.Name
+				used[c.Name] = true
+				break
+			}
+		}
+	}
 	for i, e := range base {
 		if inCur[e.Name] || al[e.Name] != "" {
 			continue
@@ -367,4 +401,39 @@ func (w *World) droppedRangeKey(fn *ssa.Function, name string) int {
 		return 0
 	}
 	return e.RangeLoop
+}
+
+// loopPhis lists the named loop-carried variables of fn and of the closures nested in it.
+func loopPhis(fn *ssa.Function, path string, qual types.Qualifier) []nameEntry {
+	var out []nameEntry
+	if len(fn.Blocks) > 0 {
+		li := computeLoops(fn)
+		for ord, h := range li.headers {
+			byType := map[string][]*ssa.Phi{}
+			var order []string
+			for _, ins := range h.Instrs {
+				phi, ok := ins.(*ssa.Phi)
+				if !ok {
+					break
+				}
+				if phi.Comment == "" || phi.Comment == "rangeindex" || strings.ContainsAny(phi.Comment, " &|.") {
+					continue
+				}
+				t := types.TypeString(phi.Type(), qual)
+				if _, seen := byType[t]; !seen {
+					order = append(order, t)
+				}
+				byType[t] = append(byType[t], phi)
+			}
+			for _, t := range order {
+				for i, phi := range byType[t] {
+					out = append(out, nameEntry{Name: phi.Comment, Type: t, PhiIn: path, PhiLoop: ord + 1, PhiIdx: i + 1, PhiOf: len(byType[t])})
+				}
+			}
+		}
+	}
+	for i, a := range fn.AnonFuncs {
+		out = append(out, loopPhis(a, fmt.Sprintf("%s$%d", path, i+1), qual)...)
+	}
+	return out
 }
